@@ -333,42 +333,53 @@ def Reconf (sb s : Nat) (r : Mem → Mem) : Prop :=
   ∀ m, GoodImg m sb s → GoodImg (r m) sb s ∧ ∃ e, InScope (r m) s e
 
 /-- One acquisition on handles that stay open: the device is reconfigured (`r`), `enable_streaming`,
-the receive loop is started (`start_streaming_loop` reads its parameters with
-`StreamParams::from_control`), `disable_streaming`.  Result: the image the acquisition started
-from and the parameters the receive loop got. -/
-def session (p : Profile) (r : Mem → Mem) (st : St) : (Mem × R StreamParams) × St :=
-  let st1 : St := { st with dev := { st.dev with mem := r st.dev.mem } }
+`StreamHandle::start_streaming_loop` (model `startStreamingLoop`: reads the parameters back,
+stores them in the handle, hands a clone to the receive loop), `stop_streaming_loop`,
+`disable_streaming`.  Result: the image the acquisition started from, the parameters the receive
+loop was started with, and `StreamHandle::params()` afterwards. -/
+def session (p : Profile) (r : Mem → Mem) (x : StreamHandle × St) :
+    (Mem × Res StreamErr StreamParams × StreamParams) × (StreamHandle × St) :=
+  let st1 : St := { x.2 with dev := { x.2.dev with mem := r x.2.dev.mem } }
   let st2 := (enableStreaming p st1).2
-  ((st1.dev.mem, (fromControl st2).1), (disableStreaming (fromControl st2).2).2)
+  let started := startStreamingLoop x.1 st2
+  ((st1.dev.mem, started.1, started.2.1.params),
+   (stopStreamingLoop started.2.1, (disableStreaming started.2.2).2))
 
-def sessions (p : Profile) : List (Mem → Mem) → St → List (Mem × R StreamParams)
+def sessions (p : Profile) : List (Mem → Mem) → StreamHandle × St → List (Mem × Res StreamErr StreamParams × StreamParams)
   | [], _ => []
-  | r :: rs, st => (session p r st).1 :: sessions p rs (session p r st).2
+  | r :: rs, x => (session p r x).1 :: sessions p rs (session p r x).2
 
-/-- handle states between acquisitions: no pending faults, SIRM address cached or both caches cold -/
-def Between (st : St) (sb s : Nat) : Prop :=
-  st.dev.faults = [] ∧ (st.sirm = some s ∨ (st.sirm = none ∧ st.sbrm = none)) ∧ GoodImg st.dev.mem sb s
+/-- states between acquisitions: no loop running, no pending faults, and any of the three cache
+states of the control handle (SIRM address cached / both caches cold / SBRM cached only) -/
+def Between (x : StreamHandle × St) (sb s : Nat) : Prop :=
+  x.1.running = false ∧ x.2.dev.faults = [] ∧
+  (x.2.sirm = some s ∨ (x.2.sirm = none ∧ x.2.sbrm = none) ∨
+   (x.2.sirm = none ∧ ∃ cap, x.2.sbrm = some (sb, cap) ∧ cap % 2 = 1)) ∧
+  GoodImg x.2.dev.mem sb s
 
-private theorem session_step (p : Profile) (r : Mem → Mem) (st : St) (sb s : Nat)
-    (hst : Between st sb s) (hr : Reconf sb s r) :
-    (∃ e t, InScope (session p r st).1.1 s e ∧
-      (session p r st).1.2 = .ok ⟨(programmedSizes (session p r st).1.1 s e).maxLeader,
-        (programmedSizes (session p r st).1.1 s e).maxTrailer,
-        (programmedSizes (session p r st).1.1 s e).transferSize,
-        (programmedSizes (session p r st).1.1 s e).transferCount,
-        (programmedSizes (session p r st).1.1 s e).final1,
-        (programmedSizes (session p r st).1.1 s e).final2, t⟩) ∧
-    Between (session p r st).2 sb s := by
-  obtain ⟨⟨m, log, f⟩, c1, c2⟩ := st
-  obtain ⟨hf, hres, hgood⟩ := hst
-  simp only at hf hres hgood
+/-- the parameter record made of the sizes programmed for image `m` -/
+def programmedParams (m : Mem) (s e t : Nat) : StreamParams :=
+  ⟨(programmedSizes m s e).maxLeader, (programmedSizes m s e).maxTrailer,
+   (programmedSizes m s e).transferSize, (programmedSizes m s e).transferCount,
+   (programmedSizes m s e).final1, (programmedSizes m s e).final2, t⟩
+
+private theorem session_step (p : Profile) (r : Mem → Mem) (x : StreamHandle × St) (sb s : Nat)
+    (hst : Between x sb s) (hr : Reconf sb s r) :
+    (∃ e t, InScope (session p r x).1.1 s e ∧
+      (session p r x).1.2.1 = .ok (programmedParams (session p r x).1.1 s e t) ∧
+      (session p r x).1.2.2 = programmedParams (session p r x).1.1 s e t) ∧
+    Between (session p r x).2 sb s := by
+  obtain ⟨sh, ⟨⟨m, log, f⟩, c1, c2⟩⟩ := x
+  obtain ⟨hrun0, hf, hres, hgood⟩ := hst
+  simp only at hrun0 hf hres hgood
   subst hf
   obtain ⟨hg1, e, hin⟩ := hr m hgood
   have hconf : Conforming ⟨⟨r m, log, []⟩, c1, c2⟩ s e := by
     refine ⟨rfl, ?_, hg1.sirm, hin⟩
-    rcases hres with h | ⟨h1, h2⟩
+    rcases hres with h | ⟨h1, h2⟩ | ⟨h1, cap, h2, hcap⟩
     · exact .warm h
     · exact .cold h1 h2 sb hg1.boot
+    · exact .mixed h1 sb cap h2 hcap hg1.boot.sbrmSpace hg1.boot.sbrmMapped hg1.boot.sirmAddr
   obtain ⟨pre, c, _, hrun⟩ := enable_run p _ s e hconf
   have hs' : SirmOk (enableImage (r m) s (programmedSizes (r m) s e)) s :=
     applyWrites_ok (afterDisable_ok hg1.sirm) _
@@ -391,33 +402,50 @@ private theorem session_step (p : Profile) (r : Mem → Mem) (st : St) (sb s : N
       mkSt (enableImage (r m) s (programmedSizes (r m) s e))
         (log ++ pre ++ enableScript (r m) s (programmedSizes (r m) s e)) c (some s) := by
     rw [hrun]
-  refine ⟨⟨e, regVal (enableImage (r m) s (programmedSizes (r m) s e)) 0 ABRM_MAXIMUM_DEVICE_RESPONSE_TIME 4, hin, ?_⟩, ?_⟩
-  · show (fromControl (enableStreaming p ⟨⟨r m, log, []⟩, c1, c2⟩).2).1 = _
-    rw [hst2, hfc]
+  -- the start of the loop on the handle `sh` (no loop running)
+  have hstart : startStreamingLoop sh (enableStreaming p ⟨⟨r m, log, []⟩, c1, c2⟩).2 =
+      (.ok (programmedParams (r m) s e
+          (regVal (enableImage (r m) s (programmedSizes (r m) s e)) 0 ABRM_MAXIMUM_DEVICE_RESPONSE_TIME 4)),
+        ⟨programmedParams (r m) s e
+          (regVal (enableImage (r m) s (programmedSizes (r m) s e)) 0 ABRM_MAXIMUM_DEVICE_RESPONSE_TIME 4), true⟩,
+        mkSt (enableImage (r m) s (programmedSizes (r m) s e)) log' c (some s)) := by
+    rw [hst2]
+    simp only [startStreamingLoop, hfc, hrun0, programmedParams]
     rfl
-  · show Between (disableStreaming (fromControl (enableStreaming p ⟨⟨r m, log, []⟩, c1, c2⟩).2).2).2 sb s
-    rw [hst2, hfc, hdis]
-    exact ⟨rfl, Or.inl rfl, hs'.write _ _, hb'.write_sirm SI_CONTROL 0 (by decide)⟩
+  refine ⟨⟨e, regVal (enableImage (r m) s (programmedSizes (r m) s e)) 0 ABRM_MAXIMUM_DEVICE_RESPONSE_TIME 4,
+    hin, ?_, ?_⟩, ?_⟩
+  · show (startStreamingLoop sh (enableStreaming p ⟨⟨r m, log, []⟩, c1, c2⟩).2).1 = _
+    rw [hstart]
+    rfl
+  · show (startStreamingLoop sh (enableStreaming p ⟨⟨r m, log, []⟩, c1, c2⟩).2).2.1.params = _
+    rw [hstart]
+    rfl
+  · show Between (stopStreamingLoop (startStreamingLoop sh (enableStreaming p ⟨⟨r m, log, []⟩, c1, c2⟩).2).2.1,
+      (disableStreaming (startStreamingLoop sh (enableStreaming p ⟨⟨r m, log, []⟩, c1, c2⟩).2).2.2).2) sb s
+    rw [hstart, hdis]
+    exact ⟨rfl, rfl, Or.inl rfl, hs'.write _ _, hb'.write_sirm SI_CONTROL 0 (by decide)⟩
 
-/-- **params_roundtrip for every acquisition of a history**: on handles that stay open, for any
-sequence of reconfigurations of a conforming device, the parameters the receive loop gets in
-EVERY acquisition are exactly the sizes `enable_streaming` programmed in that acquisition
-(`programmedSizes` of the image that acquisition started from) — never those of an earlier one. -/
-theorem params_roundtrip_every_session (p : Profile) (rs : List (Mem → Mem)) (st : St) (sb s : Nat)
-    (hst : Between st sb s) (hrs : ∀ r ∈ rs, Reconf sb s r) :
-    ∀ x ∈ sessions p rs st, ∃ e t, InScope x.1 s e ∧
-      x.2 = .ok ⟨(programmedSizes x.1 s e).maxLeader, (programmedSizes x.1 s e).maxTrailer,
-        (programmedSizes x.1 s e).transferSize, (programmedSizes x.1 s e).transferCount,
-        (programmedSizes x.1 s e).final1, (programmedSizes x.1 s e).final2, t⟩ := by
-  induction rs generalizing st with
-  | nil => intro x hx; simp [sessions] at hx
+/-- **params_roundtrip for every acquisition of a history**: on a control handle and a stream
+handle that stay open, for any sequence of reconfigurations of a conforming device and from any
+of the three cache states, in EVERY acquisition the parameters `start_streaming_loop` hands to
+the receive loop — and `StreamHandle::params()` afterwards — are exactly the sizes
+`enable_streaming` programmed in that acquisition (`programmedSizes` of the image the acquisition
+started from), never those of an earlier one.  (The statement is about the modelled
+`StreamHandle`: `startStreamingLoop` re-reads the parameters on every start; that the real
+`StreamHandle` does so is tied by the acquisition sessions of the harness.) -/
+theorem params_roundtrip_every_session (p : Profile) (rs : List (Mem → Mem)) (x : StreamHandle × St)
+    (sb s : Nat) (hst : Between x sb s) (hrs : ∀ r ∈ rs, Reconf sb s r) :
+    ∀ y ∈ sessions p rs x, ∃ e t, InScope y.1 s e ∧
+      y.2.1 = .ok (programmedParams y.1 s e t) ∧ y.2.2 = programmedParams y.1 s e t := by
+  induction rs generalizing x with
+  | nil => intro y hy; simp [sessions] at hy
   | cons r rs ih =>
-    obtain ⟨h1, h2⟩ := session_step p r st sb s hst (hrs r (by simp))
-    intro x hx
-    simp only [sessions, List.mem_cons] at hx
-    rcases hx with rfl | hx
+    obtain ⟨h1, h2⟩ := session_step p r x sb s hst (hrs r (by simp))
+    intro y hy
+    simp only [sessions, List.mem_cons] at hy
+    rcases hy with rfl | hy
     · exact h1
-    · exact ih _ h2 (fun r' hr' => hrs r' (by simp [hr'])) x hx
+    · exact ih _ h2 (fun r' hr' => hrs r' (by simp [hr'])) y hy
 
 /-! ## 4. Arbitrary devices, handle states and fault schedules -/
 
@@ -554,6 +582,23 @@ theorem failure_atomic_enable_streaming (p : Profile) (st : St) :
       subst this
       exact ⟨rfl, rfl⟩
 
+/-- **never_panics (other entry points)**: `disable_streaming`, `StreamParams::from_control` and
+`start_streaming_loop` do not panic either, for every image, state and fault schedule. -/
+theorem never_panics_disable_and_readback (st : St) (sh : StreamHandle) :
+    (disableStreaming st).1 ≠ .panic ∧ (fromControl st).1 ≠ .panic ∧
+    (startStreamingLoop sh st).1 ≠ .panic := by
+  have h1 := (NP.disableStreaming st).1
+  have h2 := (NP.fromControl st).1
+  refine ⟨h1, h2, ?_⟩
+  simp only [startStreamingLoop]
+  cases hfc : fromControl st with
+  | mk r st' =>
+    rw [hfc] at h2
+    cases r with
+    | ok sp => simp only; split <;> simp
+    | err e => simp
+    | panic => exact absurd rfl h2
+
 /-- **disable_streaming** on a conforming device: one write `SI_CONTROL := 0`, the enable bit is
 clear afterwards. -/
 theorem disable_clears (m : Mem) (log : List Access) (c : Option (Nat × Nat)) (s : Nat)
@@ -607,8 +652,8 @@ example : Conforming ⟨⟨exMem, [], []⟩, some (0x2000, 1), none⟩ 0x1000 4 
     ⟨by decide, by decide⟩, ⟨by decide, by decide, by decide, by decide, by decide⟩⟩
 
 /-- hypotheses of `params_roundtrip_every_session` are satisfiable -/
-example : Between exSt 0x2000 0x1000 :=
-  ⟨rfl, Or.inr ⟨rfl, rfl⟩, ⟨⟨by decide, by decide⟩, ⟨by decide, by decide, by decide, by decide,
+example : Between (StreamHandle.new, exSt) 0x2000 0x1000 :=
+  ⟨rfl, rfl, Or.inr (Or.inl ⟨rfl, rfl⟩), ⟨⟨by decide, by decide⟩, ⟨by decide, by decide, by decide, by decide,
     by decide, by decide, by decide, by decide⟩⟩⟩
 example : Reconf 0x2000 0x1000 (fun _ => exMem) := by
   intro _ _
